@@ -439,6 +439,8 @@ impl<'a> Printer<'a> {
     fn expr_inner(&mut self, e: &Value) -> String {
         match s(e, "k") {
             "int" => format!("{}", e["v"].as_i64().unwrap()),
+            // literal text written as is (C19: numbers beyond what the case JSON / the 32-bit model can carry)
+            "raw" => s(e, "text").to_string(),
             "float" => dyadic_text(e["n"].as_i64().unwrap(), e["d"].as_u64().unwrap() as u32),
             "str" => format!("\"{}\"", s(e, "v")),
             "bool" => format!("{}", e["v"].as_bool().unwrap()),
